@@ -259,6 +259,10 @@ impl<G: AffineRepr> InnerProductProof<G> {
             // and this check prevents overflow in 1<<lg_n below.
             return Err(ProofError::VerificationError);
         }
+        if self.R_vec.len() != lg_n {
+            // L_vec and R_vec are decoded independently; every round needs both points.
+            return Err(ProofError::VerificationError);
+        }
         if n != (1 << lg_n) {
             return Err(ProofError::VerificationError);
         }
